@@ -70,6 +70,11 @@ func (*aliasEng) Corpus(bool) []Case {
 			"get id=b dst=5 via=cached", "setspec h=5 s=s2", "finadd h=5 f=B", "setver h=5 v=3",
 			"list base=10 via=direct", "setowner h=10 o=B", "setspec h=11 s=s1", "finremove h=11 f=A",
 			"list base=20 via=cached", "setphase h=20 p=tearingDown", "dellabel h=20 k=k1", "finadd h=21 f=x", "sync"},
+		// List with a label query, direct and cached: the filtered path copies out as well
+		{"new h=2 id=a", "new h=3 id=b", "setlabel h=2 k=k1 v=v1", "create h=2 as=A", "create h=3 as=A", "sync",
+			"list base=10 via=direct q=k1", "setowner h=10 o=B", "setlabel h=10 k=k1 v=v9", "finadd h=10 f=x", "setphase h=10 p=tearingDown",
+			"list base=20 via=cached q=k1", "setphase h=20 p=tearingDown", "setlabel h=20 k=k2 v=v2", "finadd h=20 f=y", "setver h=20 v=7",
+			"get id=a dst=30 via=cached", "get id=a dst=31 via=direct", "list base=40 via=cached q=k2", "sync"},
 		// Modify / UpdateWithConflicts: the callback's object and the returned object
 		{"new h=2 id=a", "modify h=2 as=A ms=setlabel/k1/v1;finadd/A", "setlabel h=2 k=k1 v=v2", "finadd h=2 f=B",
 			"updatewc id=a dst=3 as=A ms=finadd/x;setspec/s1", "finadd h=3 f=y", "setspec h=3 s=s2", "setlabel h=3 k=k2 v=v1",
@@ -430,7 +435,12 @@ func (e *aliasEng) Gen(r *Rand, thorough bool, idx int) Case {
 				hid[h+i] = k
 			}
 
-			add("list base=%d via=%s", h, Pick(r, []string{"direct", "cached"}))
+			if r.Chance(1, 3) {
+				// with a label query: only the ids carrying the label are bound (the others print nohandle when used)
+				add("list base=%d via=%s q=%s", h, Pick(r, []string{"direct", "cached"}), Pick(r, []string{"k1", "k1", "k2"}))
+			} else {
+				add("list base=%d via=%s", h, Pick(r, []string{"direct", "cached"}))
+			}
 		case x < 99:
 			add("sync")
 		default:
@@ -873,10 +883,16 @@ func (a *aliasRun) exec(line string) (out string) {
 			err error
 		)
 
+		var lopts []state.ListOption
+
+		if q := args["q"]; q != "" { // a label query: the filtered path of collection.List / cacheHandler.list
+			lopts = append(lopts, state.WithLabelQuery(resource.LabelExists(q)))
+		}
+
 		if args["via"] == "cached" {
-			l, err = a.cache.List(a.ctx, aliasKind)
+			l, err = a.cache.List(a.ctx, aliasKind, lopts...)
 		} else {
-			l, err = a.st.List(a.ctx, aliasKind)
+			l, err = a.st.List(a.ctx, aliasKind, lopts...)
 		}
 
 		if err != nil {
